@@ -60,6 +60,7 @@ var namePool = []nameCol{
 
 type fieldGen struct {
 	goName string
+	snake  string // snake form of the Go name (default index names derive from it)
 	col    string // expected column name ("" for embedded structs)
 	kind   goKind
 	class  string
@@ -81,12 +82,51 @@ func (f *fieldGen) tag(v2 bool) string {
 	return strings.Join(t, ";")
 }
 
+// idxExp / chkExp / uniqExp: what the generator expects to exist in the database once the
+// model version carrying the tag has been migrated (derived from the tags, not from gorm).
+type idxExp struct {
+	Name    string
+	Unique  bool
+	Cols    []string
+	Expr    bool // indexes an expression (no column list to compare)
+	Partial bool
+	V2      bool // only part of v2
+}
+
+type chkExp struct {
+	Col  string
+	Expr string
+	Bad  interface{} // a value violating the expression
+	V2   bool
+}
+
+type uniqExp struct {
+	Col string
+	V2  bool
+}
+
 type model struct {
 	table  string
 	pkKind string
 	fields []*fieldGen
 	seq    int
+	idx    []*idxExp
+	chk    []*chkExp
+	uniq   []*uniqExp
 }
+
+func (m *model) addIdx(name string, unique bool, col string, expr, partial, v2 bool) {
+	for _, e := range m.idx {
+		if e.Name == name {
+			e.Cols = append(e.Cols, col)
+			e.Unique = e.Unique || unique
+			return
+		}
+	}
+	m.idx = append(m.idx, &idxExp{Name: name, Unique: unique, Cols: []string{col}, Expr: expr, Partial: partial, V2: v2})
+}
+
+func (m *model) defIdx(sub string) string { return "idx_" + m.table + "_" + sub }
 
 func (m *model) nextName(prefix string) string {
 	m.seq++
@@ -138,20 +178,26 @@ func hasFeat(fs []string, p string) bool {
 }
 
 // checkExpr returns a CHECK expression every generated value and every generated default satisfies.
-func checkExpr(class, col string, r *core.Rand) string {
+func checkExpr(class, col string, r *core.Rand) (string, interface{}) {
 	switch class {
 	case "int", "uint":
-		return core.Pick(r, []string{col + " > -100", col + " >= -50 AND " + col + " < 100000", col + " IN (7,0,-3) OR " + col + " > 5"})
+		return core.Pick(r, []string{col + " > -100", col + " >= -50 AND " + col + " < 100000", col + " IN (7,0,-3) OR " + col + " > 5"}), int64(-1000)
 	case "float":
-		return core.Pick(r, []string{col + " >= 0", col + " < 1000000"})
+		if r.Bool() {
+			return col + " >= 0", float64(-5)
+		}
+		return col + " < 1000000", float64(1e7)
 	default:
-		return core.Pick(r, []string{"length(" + col + ") < 500", col + " <> 'zzz'"})
+		if r.Bool() {
+			return "length(" + col + ") < 500", strings.Repeat("x", 600)
+		}
+		return col + " <> 'zzz'", "zzz"
 	}
 }
 
 // indexTag returns one index-ish tag for a field.
-func (m *model) indexTag(r *core.Rand, f *fieldGen) (tag, feat string) {
-	uniqueOK := f.class != "bool" && f.class != "json"
+func (m *model) indexTag(r *core.Rand, f *fieldGen, v2, noUnique bool) (tag, feat string) {
+	uniqueOK := f.class != "bool" && f.class != "json" && !noUnique
 	opts := []string{"index", "index:named", "index:sort", "index:length", "index:comment"}
 	if uniqueOK {
 		opts = append(opts, "index:unique", "uniqueIndex", "uniqueIndex:named", "index:class")
@@ -166,31 +212,48 @@ func (m *model) indexTag(r *core.Rand, f *fieldGen) (tag, feat string) {
 		opts = append(opts, "index:where")
 	}
 	o := core.Pick(r, opts)
+	def := m.defIdx(f.snake)
 	switch o {
 	case "index":
+		m.addIdx(def, false, f.col, false, false, v2)
 		return "index", o
 	case "index:named":
-		return "index:" + m.nextName("idx"), o
+		n := m.nextName("idx")
+		m.addIdx(n, false, f.col, false, false, v2)
+		return "index:" + n, o
 	case "index:sort":
+		m.addIdx(def, false, f.col, false, false, v2)
 		return "index:,sort:desc", o
 	case "index:length":
+		m.addIdx(def, false, f.col, false, false, v2)
 		return "index:,length:8", o
 	case "index:comment":
+		m.addIdx(def, false, f.col, false, false, v2)
 		return "index:,comment:lookup", o
 	case "index:unique":
+		m.addIdx(def, true, f.col, false, false, v2)
 		return "index:,unique", o
 	case "uniqueIndex":
+		m.addIdx(def, true, f.col, false, false, v2)
 		return "uniqueIndex", o
 	case "uniqueIndex:named":
-		return "uniqueIndex:" + m.nextName("ux"), o
+		n := m.nextName("ux")
+		m.addIdx(n, true, f.col, false, false, v2)
+		return "uniqueIndex:" + n, o
 	case "index:class":
+		m.addIdx(def, true, f.col, false, false, v2)
 		return "index:,class:UNIQUE", o
 	case "index:collate":
+		m.addIdx(def, false, f.col, false, false, v2)
 		return "index:,collate:NOCASE", o
 	case "index:expression":
-		return "index:" + m.nextName("idx") + ",expression:abs(" + f.col + ")", o
+		n := m.nextName("idx")
+		m.addIdx(n, false, f.col, true, false, v2)
+		return "index:" + n + ",expression:abs(" + f.col + ")", o
 	case "index:where":
-		return "index:" + m.nextName("idx") + ",where:" + f.col + " IS NOT NULL", o
+		n := m.nextName("idx")
+		m.addIdx(n, false, f.col, false, true, v2)
+		return "index:" + n + ",where:" + f.col + " IS NOT NULL", o
 	}
 	panic(o)
 }
@@ -201,9 +264,6 @@ func defaultTag(r *core.Rand, f *fieldGen, added bool) (tag, feat string) {
 	switch f.class {
 	case "int":
 		opts = [][2]string{{"default:7", "default:int"}, {"default:0", "default:zero"}, {"default:-3", "default:neg"}}
-		if !added {
-			opts = append(opts, [2]string{"default:(abs(-5))", "default:func"})
-		}
 	case "uint":
 		opts = [][2]string{{"default:7", "default:int"}, {"default:0", "default:zero"}}
 	case "float":
@@ -212,9 +272,6 @@ func defaultTag(r *core.Rand, f *fieldGen, added bool) (tag, feat string) {
 		opts = [][2]string{{"default:true", "default:bool"}, {"default:false", "default:bool"}}
 	case "string":
 		opts = [][2]string{{"default:abc", "default:bare"}, {"default:'abc'", "default:quoted"}, {"default:'hello world'", "default:spaced"}, {"default:''", "default:empty"}}
-		if !added {
-			opts = append(opts, [2]string{"default:(lower('AB'))", "default:func"})
-		}
 	case "time":
 		opts = [][2]string{{"default:'2020-01-02 03:04:05'", "default:timelit"}}
 		if !added {
@@ -242,6 +299,9 @@ func (m *model) genField(r *core.Rand, f *fieldGen, added bool) {
 		add("embedded", "embedded")
 		pre := strings.ToLower(f.goName) + "_"
 		add("embeddedPrefix:"+pre, "prefix")
+		if f.kind.name == "EmbB" {
+			m.addIdx(m.defIdx("p"), false, pre+"p", false, false, added)
+		}
 		return
 	}
 	if r.Chance(1, 4) {
@@ -285,17 +345,24 @@ func (m *model) genField(r *core.Rand, f *fieldGen, added bool) {
 	if r.Chance(1, 10) {
 		add("comment:some note", "comment")
 	}
-	if simple && f.class != "bool" && f.class != "bytes" && r.Chance(1, 8) {
+	// a column added to a populated table with a constant default holds that default in every
+	// existing row: a unique constraint on it cannot be built (the database's refusal, not gorm's)
+	noUnique := added && hasDefault
+	if simple && f.class != "bool" && f.class != "bytes" && !noUnique && r.Chance(1, 8) {
 		add("unique", "unique")
+		m.uniq = append(m.uniq, &uniqExp{Col: f.col, V2: added})
 	}
 	if r.Chance(2, 5) {
-		add(m.indexTag(r, f))
+		add(m.indexTag(r, f, added, noUnique))
 		if r.Chance(1, 6) {
-			add("index:"+m.nextName("idx"), "index:second")
+			n := m.nextName("idx")
+			m.addIdx(n, false, f.col, false, false, added)
+			add("index:"+n, "index:second")
 		}
 	}
 	if (f.class == "int" || f.class == "uint" || f.class == "float" || f.class == "string") && r.Chance(1, 5) {
-		e := checkExpr(f.class, f.col, r)
+		e, bad := checkExpr(f.class, f.col, r)
+		m.chk = append(m.chk, &chkExp{Col: f.col, Expr: e, Bad: bad, V2: added})
 		if r.Bool() {
 			add("check:"+m.nextName("chk")+","+e, "check:named")
 		} else {
@@ -323,16 +390,16 @@ func (m *model) addToExisting(r *core.Rand, f *fieldGen) {
 	}
 	simple := !f.emb && f.class != "tagged" && f.class != "json"
 	var opts []string
-	if !f.emb && !hasFeat(f.feats, "index") && !hasFeat(f.feats, "uniqueIndex") {
+	if !f.emb && !hasFeat(f.feats, "index") && !hasFeat(f.feats, "uniqueIndex") && !hasFeat(f.feats2, "+index") && !hasFeat(f.feats2, "+uniqueIndex") {
 		opts = append(opts, "index", "index")
 	}
 	if !f.emb {
 		opts = append(opts, "index2")
 	}
-	if simple && f.class != "bool" && f.class != "bytes" && !hasFeat(f.feats, "unique") && !f.pk {
+	if simple && f.class != "bool" && f.class != "bytes" && !hasFeat(f.feats, "unique") && !hasFeat(f.feats2, "+unique") && !f.pk {
 		opts = append(opts, "unique")
 	}
-	if simple && !hasFeat(f.feats, "check") && (f.class == "int" || f.class == "uint" || f.class == "float" || f.class == "string") {
+	if simple && !hasFeat(f.feats, "check") && !hasFeat(f.feats2, "+check") && (f.class == "int" || f.class == "uint" || f.class == "float" || f.class == "string") {
 		opts = append(opts, "check", "check")
 	}
 	if len(opts) == 0 {
@@ -340,13 +407,17 @@ func (m *model) addToExisting(r *core.Rand, f *fieldGen) {
 	}
 	switch core.Pick(r, opts) {
 	case "index":
-		add(m.indexTag(r, f))
+		add(m.indexTag(r, f, true, false))
 	case "index2":
-		add("index:"+m.nextName("idx"), "index:named")
+		n := m.nextName("idx")
+		m.addIdx(n, false, f.col, false, false, true)
+		add("index:"+n, "index:named")
 	case "unique":
 		add("unique", "unique")
+		m.uniq = append(m.uniq, &uniqExp{Col: f.col, V2: true})
 	case "check":
-		e := checkExpr(f.class, f.col, r)
+		e, bad := checkExpr(f.class, f.col, r)
+		m.chk = append(m.chk, &chkExp{Col: f.col, Expr: e, Bad: bad, V2: true})
 		if r.Bool() {
 			add("check:"+m.nextName("chk")+","+e, "check:named")
 		} else {
@@ -371,24 +442,29 @@ func (m *model) composite(r *core.Rand, fs []*fieldGen, v2 bool) {
 		n = len(el)
 	}
 	style := r.Intn(3)
-	var name string
+	var name, iname string
 	switch style {
 	case 0:
-		name = "index:" + m.nextName("idx")
+		iname = m.nextName("idx")
+		name = "index:" + iname
 	case 1:
-		name = "uniqueIndex:" + m.nextName("ux")
+		iname = m.nextName("ux")
+		name = "uniqueIndex:" + iname
 	default:
 		m.seq++
+		iname = m.defIdx(fmt.Sprintf("grp%d", m.seq))
 		name = fmt.Sprintf("index:,composite:grp%d", m.seq)
 	}
+	// a unique composite needs a column whose existing values are distinct (or NULL): a v1 non-bool column
 	allBool := true
 	for k := 0; k < n; k++ {
-		if el[p[k]].class != "bool" {
+		if el[p[k]].class != "bool" && el[p[k]].inV1 {
 			allBool = false
 		}
 	}
 	if allBool && style == 1 {
-		name = "index:" + m.nextName("idx")
+		iname = m.nextName("idx")
+		name = "index:" + iname
 		style = 0
 	}
 	unique := style != 1 && !allBool && r.Chance(1, 4)
@@ -402,6 +478,7 @@ func (m *model) composite(r *core.Rand, fs []*fieldGen, v2 bool) {
 		if unique && k == 0 {
 			t += ",unique"
 		}
+		m.addIdx(iname, unique || style == 1, f.col, false, false, v2)
 		if v2 && f.inV1 {
 			f.tags2 = append(f.tags2, t)
 			f.feats2 = append(f.feats2, "+composite")
@@ -417,7 +494,7 @@ func genModel(r *core.Rand, n int) *model {
 	m.pkKind = core.Pick(r, []string{"auto", "auto", "uintID", "string", "composite", "noauto"})
 	key := func(name, col string, k goKind, tags ...string) {
 		c, w := classOf(k.typ)
-		m.fields = append(m.fields, &fieldGen{goName: name, col: col, kind: k, class: c, wrap: w, inV1: true, pk: true, tags1: tags, feats: []string{"pk:" + m.pkKind}})
+		m.fields = append(m.fields, &fieldGen{goName: name, snake: col, col: col, kind: k, class: c, wrap: w, inV1: true, pk: true, tags1: tags, feats: []string{"pk:" + m.pkKind}})
 	}
 	switch m.pkKind {
 	case "auto":
@@ -442,7 +519,7 @@ func genModel(r *core.Rand, n int) *model {
 		for strings.HasPrefix(k.name, "Emb") && embUsed[k.name] {
 			k = core.Pick(r, kinds)
 		}
-		f := &fieldGen{goName: nc.goName, col: nc.col, kind: k, inV1: i < nv1}
+		f := &fieldGen{goName: nc.goName, snake: nc.col, col: nc.col, kind: k, inV1: i < nv1}
 		if strings.HasPrefix(k.name, "Emb") {
 			embUsed[k.name] = true
 			f.emb = true
@@ -471,8 +548,14 @@ func genModel(r *core.Rand, n int) *model {
 	if nv2 == 0 && nadd == 0 {
 		nadd = 1
 	}
+	var inV1 []*fieldGen
+	for _, f := range m.fields {
+		if f.inV1 {
+			inV1 = append(inV1, f)
+		}
+	}
 	for k := 0; k < nadd; k++ {
-		m.addToExisting(r, core.Pick(r, m.fields))
+		m.addToExisting(r, core.Pick(r, inV1))
 	}
 	if r.Chance(1, 3) {
 		m.composite(r, all, true)
@@ -491,12 +574,15 @@ func (m *model) features() (v1, add []string) {
 			for _, x := range f.feats2 {
 				s2[x] = true
 			}
-			s1["k:"+f.class+"/"+f.wrap] = true
 		} else {
 			for _, x := range f.feats {
 				s2["new:"+x] = true
 			}
-			s2["new:k:"+f.class+"/"+f.wrap] = true
+			if f.emb {
+				s2["new:emb"] = true
+			} else {
+				s2["new:k:"+f.class] = true
+			}
 		}
 	}
 	for k := range s1 {
